@@ -49,7 +49,7 @@ theorem C07_table_reproducible (cfg : Config) (rounds : Nat) (g : Gen) (seed : N
   C07_noninterference_closed g seed _ w₁ w₂ (wf_tableProgram Gen.sites cfg C07_sites_seeded rounds).1
 
 /-- **C07 (seed threading).**  The model of `Search.__init__ → CBO.__init__ → Optimizer.__init__ →
-Space.rvs` (and of the constant-liar copies, qLCB, Boltzmann, gp_hedge, MES after the repair, pymoo
+Space.rvs` (and of the constant-liar copies, the `update_next` refresh copy, qLCB, Boltzmann, gp_hedge, MES after the repair, pymoo
 seeds, multi-objective weights, RandomSearch, RegularizedEvolution) derives every generator it ever
 draws from — surrogate, cooked estimator, ConfigSpace, initial design, per-dimension, copy — from the
 one root stream created from the user's seed: for all options and all ask/tell scripts (any batch
@@ -83,13 +83,15 @@ example : Agree (mkWorld 5 1) (mkWorld 5 2) ∧ mkWorld 5 1 .numpyGlobal ≠ mkW
   refine ⟨fun k => rfl, by decide⟩
 
 /-- a non-trivial search: CBO, GP cooked by name, conditional space, sobol design, MES, gp_hedge off,
-two objectives, constant liar, batches 3 / 1 / 4 — well-initialised, 3 proposals -/
+two objectives, constant liar, batches 3 / 1 / 4, then ask-again (`update_next`) and a batch of 2 — well-initialised,
+4 proposals -/
 def exOpts : Opts :=
   { search := .cbo, estimatorByName := true, cfgSpace := true, design := true, ndims := 4,
     mes := true, hedge := false, moo := true, pymoo := false, strategy := .cl }
-def exOps : List Op := [.ask 3 false true, .tell true, .ask 1 true false, .tell true, .ask 4 true false]
+def exOps : List Op := [.ask 3 false true, .tell true, .ask 1 true false, .tell true, .ask 4 true false,
+  .refresh true, .ask 2 true false]
 example : WellInit (searchProgram exOpts exOps) = true := by decide +kernel
-example : (outputs lcg 42 (searchProgram exOpts exOps) (mkWorld 0 1)).length = 3 := by decide +kernel
+example : (outputs lcg 42 (searchProgram exOpts exOps) (mkWorld 0 1)).length = 4 := by decide +kernel
 example : outputs lcg 42 (searchProgram exOpts exOps) (mkWorld 0 1) =
           outputs lcg 42 (searchProgram exOpts exOps) (mkWorld 7 99) := by decide +kernel
 example : outputs lcg 42 (searchProgram exOpts exOps) (mkWorld 0 1) ≠
